@@ -744,7 +744,28 @@ STATEFUL_TEXTS = [
     "[x := i for i in range(5)]\n[i := 0 for i, j in range(5)]\nprint([(y := f(x), y**2) for x in data])\n",
     "[i+1 for i in (i := range(5))]\n{(a := 1): (b := 2) for a in c for b in d}\n",
     "x = '\\d' + b'\\q' + '\\N{DASH}' + '\\x4'\ny = 'fine\\n' 'a\\db'\n",
+    # the same payload as a str literal (an error) and as a bytes literal (fine), in both orders
+    "x = '\\u12'\ny = b'\\u12'\nz = '\\N{'\nw = b'\\N{'\n",
+    "y = b'\\U0001'\nx = '\\U0001'\nw = b'\\x41\\u'\nz = '\\x41\\u'\n",
 ]
+
+
+def _big_text(n):
+    out = []
+    for i in range(n):
+        if i % 40 == 0:
+            out.append('def f%d(a, b=%d):\n' % (i, i))
+        elif i % 40 < 12:
+            out.append('    v%d = a + %d  # c\n' % (i, i))
+        elif i % 40 == 12:
+            out.append('    return v%d\n' % (i - 1))
+        else:
+            out.append('w%d = [%d, "s%d"]\n' % (i, i, i))
+    return ''.join(out)
+
+
+# A large source (an implementation may treat those differently).
+SIZE_TEXTS = [_big_text(1700)]
 
 
 def _deep_blocks(d):
@@ -769,6 +790,8 @@ def _text(rng):
     r = rng.random()
     if r < 0.03:
         return rng.choice(DEEP_TEXTS)
+    if r < 0.045:
+        return SIZE_TEXTS[0]
     if r < 0.35:
         return rng.choice(STATEFUL_TEXTS)
     if r < 0.55:
@@ -963,7 +986,8 @@ def make_scan_plan(seed, idx, tier='quick'):
     if mode == 0:
         # (text, call kinds): the two deep texts on their own (issue listing only: the PEP 8 normalizer
         # needs millions of lines for them), then the chunks of the corpus under every kind
-        items = [(t, ['errors']) for t in DEEP_TEXTS] + [(t, SYS_KINDS) for t in scan_chunks()]
+        # (... and last, because one profile of it costs 2.4 M traced lines, a source of 1700 lines)
+        items = [(t, ['errors']) for t in DEEP_TEXTS] + [(t, SYS_KINDS) for t in scan_chunks()] + [(SIZE_TEXTS[0], ['parse'])]
         n = idx // 3
         version = SYS_VERSIONS[(n // len(items)) % len(SYS_VERSIONS)]
         text, kinds = items[n % len(items)]
